@@ -13,7 +13,7 @@ Functions put under a solver-discharged contract here (real bodies, symbolic exe
 
 The "member access" is an ASSUMED library call (zipfile.ZipFile.namelist / read / open / extract / extractall / testzip: may
 raise anything, result unknown) with a PROVED precondition `container accepted under the configured limits and still open`
-(obligation kind call-pre, label `member-access-on-accepted-open-container@k`).  "Configured limits" = what the REAL default
+(obligation kind call-pre, label `member-access-on-accepted-open-container`, one VC per access).  "Configured limits" = what the REAL default
 of the guard's `limits` parameter denotes (the module-level default object, field values evaluated from the class body:
 C11Executor.config_object; tied to the documented numbers by the `defaults#` obligations of C11_flow.configuration).
 
@@ -96,8 +96,9 @@ def accepted_open(ex, st, z):
 # ------------------------------------------------------------------------------------- assumed member access, proved pre --
 def member_access(name):
     def model(ex, st, obj, args, kwargs, node):
-        k = ex.call_ordinal(node, f"ZipFile.{name}")
-        ex.add_vc("call-pre", f"member-access-on-accepted-open-container:{name}@{k}", st.pc, accepted_open(ex, st, obj.t), loc=ex.loc(node))
+        # ONE obligation per function (a VC per access): the id survives read <-> open rewrites and added accesses
+        ex.add_vc("call-pre", "member-access-on-accepted-open-container", st.pc, accepted_open(ex, st, obj.t),
+                  note=f"ZipFile.{name} at {ex.loc(node)}", loc=ex.loc(node))
         st.ghost["c11!accesses"] = st.ghost.get("c11!accesses", ()) + ((obj.t, name),)
         if name in MISSING_MEMBER:
             # documented behaviour, not an over-approximation: no member of that name -> KeyError (a REAL path: refutations on it count)
